@@ -433,6 +433,13 @@ def write_evidence(pid, ev):
         json.dump(ev, f, indent=1, sort_keys=True)
         f.write("\n")
     os.replace(tmp, p)
+    if ev.get("tier") == "thorough" and not ALT:
+        # keep the last thorough run beside the (usually quick) registered evidence file
+        td = os.path.join(evdir, "thorough")
+        os.makedirs(td, exist_ok=True)
+        with open(os.path.join(td, pid + ".json"), "w") as f:
+            json.dump(ev, f, indent=1, sort_keys=True)
+            f.write("\n")
 
 
 def write_replay(pid, seed, k, body):
